@@ -818,4 +818,40 @@ theorem plain_nil_old : renderPlainOld .okNil = ⟨.s500, true, true, .errJson "
 
 theorem plain_nil_new : renderPlain .okNil = ⟨.s200, false, false, .empty⟩ := rfl
 
+/-! ## Read-only requests -/
+
+/-- A `GET` never changes the broker: the routes registered for GET are /ping, /info, /stats,
+/config/:opt and the pprof handlers, none of which touches a topic or channel. -/
+theorem get_readonly (hc : HConf) (healthy : Bool) (b : Broker) (rq : Request) (hget : rq.method = ascii "GET") :
+    (HttpFull.serve hc healthy b rq).2 = b := by
+  unfold HttpFull.serve
+  split
+  · rfl
+  · split
+    · rename_i name d hr
+      obtain ⟨me, pat, hmem, hme, hp⟩ := routeFull_handler _ _ _ _ hr
+      rw [hget] at hme
+      simp only [fullTable, List.mem_cons, Prod.mk.injEq, List.not_mem_nil, or_false] at hmem
+      rcases hmem with ⟨rfl, rfl, rfl, rfl⟩ | ⟨rfl, rfl, rfl, rfl⟩ | ⟨rfl, rfl, rfl, rfl⟩ | ⟨rfl, rfl, rfl, rfl⟩ |
+        ⟨rfl, rfl, rfl, rfl⟩ | ⟨rfl, rfl, rfl, rfl⟩ | ⟨rfl, rfl, rfl, rfl⟩ | ⟨rfl, rfl, rfl, rfl⟩ |
+        ⟨rfl, rfl, rfl, rfl⟩ | ⟨rfl, rfl, rfl, rfl⟩ | ⟨rfl, rfl, rfl, rfl⟩ | ⟨rfl, rfl, rfl, rfl⟩ |
+        ⟨rfl, rfl, rfl, rfl⟩ | ⟨rfl, rfl, rfl, rfl⟩ | ⟨rfl, rfl, rfl, rfl⟩ | ⟨rfl, rfl, rfl, rfl⟩ |
+        ⟨rfl, rfl, rfl, rfl⟩ | ⟨rfl, rfl, rfl, rfl⟩ | ⟨rfl, rfl, rfl, rfl⟩ | ⟨rfl, rfl, rfl, rfl⟩ |
+        ⟨rfl, rfl, rfl, rfl⟩ | ⟨rfl, rfl, rfl, rfl⟩ | ⟨rfl, rfl, rfl, rfl⟩ | ⟨rfl, rfl, rfl, rfl⟩ |
+        ⟨rfl, rfl, rfl, rfl⟩ | ⟨rfl, rfl, rfl, rfl⟩ | ⟨rfl, rfl, rfl, rfl⟩ | ⟨rfl, rfl, rfl, rfl⟩
+      all_goals first
+        | (exact absurd hme (by decide))
+        | (simp [runFull, baseHandler])
+    · rfl
+    · rfl
+    · rfl
+
+/-- `/config` (GET or PUT), `/debug/*`, `/ping`, `/info`, `/stats` never change the broker either —
+whatever the method. -/
+theorem admin_free_routes_readonly (hc : HConf) (healthy : Bool) (b : Broker) (rq : Request) (name : String)
+    (hn : baseHandler name = none) : (runFull hc healthy b rq name).2 = b := by
+  simp only [runFull, hn]
+  repeat' split
+  all_goals rfl
+
 end Nsq.Proofs.HttpFull
